@@ -14,9 +14,11 @@ MANIFEST = dict(
              "lower answers 0' keeps counter = number of references, destroys exactly when the last reference goes, never "
              "resurrects, and that a refused raise changes nothing and never wraps.  Every transition of the model is replayed "
              "into the real code for 12 object kinds: mpt_refcount_raise/lower and refcount::raise/lower at 0/1/2/MAX-1/MAX, "
-             "shared buffers (mpt_array_clone, array type traits, buffer vptr, detach/mpt_array_reserve), a harness metatype "
+             "shared buffers (mpt_array_clone, array type traits, buffer vptr, detach, mpt_array_reserve with the same and with "
+             "another content type, mpt_array_slice/insert/append leaving a shared buffer), a harness metatype "
              "counting with mpt_refcount_*, reply contexts (metatype references and deferred handles), plot rawdata with nested "
-             "stage buffers, stream inputs on a socket pair, local/remote outputs, file iterators, geninfo and buffer metatypes "
+             "stage buffers, stream inputs on a socket pair or a regular file with the notifier as one more holder (mpt_notify_add "
+             "accepted or refused by the kernel, mpt_notify_clear/fini), local/remote outputs, file iterators, geninfo and buffer metatypes "
              "(not shareable, clone) -- each through generic conversion (mpt_data_converter / mpt_value_convert to TypeMetaRef), "
              "reference type traits (also as array-of-references copy via mpt_buffer_set) and C++ reference<T> (copy, assign, "
              "move, detach, set_instance, destructor), with destruction observed as the release of the object's block at the "
@@ -163,7 +165,7 @@ def gen_histories(ck, n, steps):
     for b in range(n):
         k = KINDS[b % len(KINDS)] if b % 3 else rng.choice(KINDS[:-1])
         m = Ideal(k)
-        tlen = rng.choice(TEXTLENS) if k == "metanew" else rng.choice([0, 8]) if k == "buf" else 0
+        tlen = rng.choice(TEXTLENS) if k == "metanew" else rng.choice([0, 8]) if k == "buf" else rng.choice([0, 0, 1]) if k == "stream" else 0
         nestable = k in NESTABLE and (k != "buf" or tlen > 0)
         beh = [{"a": "init", "arg": {"kind": k, "nh": T_NH, "nobj": T_NOBJ, "max": T_MAX, "tlen": tlen}}]
         if k == "bare":
@@ -181,6 +183,8 @@ def gen_histories(ck, n, steps):
         for _ in range(steps):
             ops = ["create"] * 3 + ["copy"] * 8 + ["drop"] * 4 + ["move"] * 2 + ["detach", "adopt", "adopt", "rawref", "rawunref",
                    "rawunref", "arrcopy", "arrdrop", "arrdrop", "clone", "unshare", "unshare", "nest", "nest", "nest", "poke", "unpoke", "unpoke", "defer", "defer", "undefer", "undefer", "undefer", "reply"]
+            if k == "stream":
+                ops += ["nadd"] * 5 + ["nclear"] * 3 + ["nfini"]
             op = rng.choice(ops)
             alive = [o for o in range(1, m.made + 1) if m.cnt[o] > 0]
             if k == "reply" and op in ("poke", "unpoke", "unshare", "clone") and rng.random() < 0.8:
@@ -299,9 +303,13 @@ def gen_histories(ck, n, steps):
                 o = m.h[i]
                 if m.cnt[o] > 1 and m.made >= T_NOBJ:
                     continue
-                beh.append({"a": "unshare", "arg": {"h": i + 1, "via": rng.choice(["vptr", "reserve"])}})
+                via = rng.choice(["vptr", "reserve", "reserveother", "reserveother", "slice", "insert"] + (["append"] if tlen == 0 else []))
+                beh.append({"a": "unshare", "arg": {"h": i + 1, "via": via}})
+                if m.cnt[o] <= 1 and via == "reserveother":
+                    t, m.inn[o] = m.inn[o], 0
+                    m.lower(t)
                 if m.cnt[o] > 1:
-                    t = m.inn[o]
+                    t = m.inn[o] if via != "reserveother" else 0
                     m.made += 1
                     if t and m.can(t):
                         m.cnt[t] += 1
@@ -353,6 +361,29 @@ def gen_histories(ck, n, steps):
                 if not (msg == 1 and acc == 0 and m.snd[o]):
                     m.d[o] -= 1
                     m.lower(o, detached=True)
+            elif op == "nadd":
+                hs = [i for i in range(T_NH) if m.h[i]]
+                if not hs:
+                    continue
+                i = rng.choice(hs)
+                o = m.h[i]
+                beh.append({"a": "nadd", "arg": {"h": i + 1}})
+                if tlen == 0 and m.d[o] == 0:
+                    m.h[i], m.d[o] = 0, 1
+            elif op == "nclear":
+                if not alive:
+                    continue
+                o = rng.choice(alive)
+                beh.append({"a": "nclear", "arg": {"o": o}})
+                if m.d[o]:
+                    m.d[o] = 0
+                    m.lower(o)
+            elif op == "nfini":
+                beh.append({"a": "nfini", "arg": {"x": 0}})
+                for o in range(1, m.made + 1):
+                    if m.d[o]:
+                        m.d[o] = 0
+                        m.lower(o)
             elif op == "reply":
                 if k != "reply" or not alive:
                     continue
@@ -374,7 +405,7 @@ def nontrivial(beh, recs):
         if o.get("gone"):
             gone = True
         hr = [x for x in (o.get("href") or []) + (o.get("copy") or []) if x]
-        if len(hr) != len(set(hr)) or st["a"] in ("rawref", "defer", "detach", "poke"):
+        if len(hr) != len(set(hr)) or st["a"] in ("rawref", "defer", "detach", "poke", "nadd"):
             shared = True
         if st["a"].startswith("bare") and (o.get("ret") == "refused" or st["a"] == "barelower"):
             shared = gone = True
@@ -519,6 +550,10 @@ def run(tier):
     import x15_owned
     if x15_owned.enabled():
         x15_owned.run_part(ck, tier)
+    # extension X30: the creator overrides of libmpt++ (checks/x30_creators.py, docs/X30_creators.md)
+    import x30_creators
+    if x30_creators.enabled():
+        x30_creators.run_part(ck, tier)
     return ck.finish()
 
 
@@ -528,6 +563,9 @@ def replay(path):
     if det.get("x15"):
         import x15_owned
         return x15_owned.replay(det, path)
+    if det.get("x30"):
+        import x30_creators
+        return x30_creators.replay(det, path)
     beh = det.get("behaviour")
     if not beh:
         print(json.dumps(det, indent=1)[:4000])
